@@ -99,7 +99,7 @@ def generate(tier, seed):
             o = rand_perm(rng, alts)
             if o not in orders:
                 orders.append(o)
-        prof = [[o, rng.randint(1, 3)] for o in orders]
+        prof = [[o, rng.randint(1, 3) if i % 4 != 1 else rng.randint(3, 7)] for o in orders]
         # hist=1: the instance is built through the public append API in two phases with a
         # distance_matrix / full_profile call in between (history-dependent state must not leak)
         out.append(case("c20.dm", [i % 3, prof], dm=1, hist=i % 2, hseed=rng.randrange(10 ** 6)))
@@ -128,6 +128,18 @@ def _call(op, o1, o2, tup):
         o1, o2 = tuple(o1), tuple(o2)
     fn = {"c20.kt": D.kendall_tau_distance, "c20.footrule": D.spearman_footrule_distance,
           "c20.sertel": D.sertel_distance}[op]
+    if op == "c20.kt" and len(o1) == len(o2) and len(o1) >= 2 and (hash((o1, o2)) % 3 == 0):
+        # cross-call history: the normalised variant of the same function is evaluated first (both argument orders);
+        # it must equal count / number of pairs and must not influence the plain call that follows
+        try:
+            nv = fn(o1, o2, normalise=True)
+            fn(o2, o1, normalise=True)
+            plain = fn(o1, o2)
+            npairs = len(o1) * (len(o1) - 1) // 2
+            if float(nv) != plain / npairs:
+                return {"crash": "kendall_tau_distance(normalise=True) = %r but count %r / %d pairs" % (nv, plain, npairs)}
+        except ValueError:
+            pass
     r = guarded(fn, o1, o2)
     if r[0] == 0:
         v = r[1]
@@ -156,6 +168,13 @@ def impl(c):
             inst.full_profile()
             rest = [o for o, mu in prof for _ in range(mu - 1)]
             hr.shuffle(rest)
+            # a batch through append_order_array that repeats rankings already present (several copies in one batch)
+            import numpy as np
+            k_arr = len(rest) // 3
+            if k_arr >= 2:
+                batch, rest = rest[:k_arr], rest[k_arr:]
+                inst.append_order_array(np.array(batch))
+                D.distance_matrix(inst, fn)
             for j, o in enumerate(rest):
                 if j % 3 == 0:
                     inst.append_order(tuple(o))
